@@ -321,11 +321,15 @@ fn new_global(local_hold: u16) -> Result<GlobalHandle, String> {
 }
 
 fn encode(codec: &mut bgp::PeerCodec, m: Msg, remote_hold: u16) -> BytesMut {
+    encode_id(codec, m, remote_hold, u32::from(Ipv4Addr::new(10, 0, 0, 2)))
+}
+
+fn encode_id(codec: &mut bgp::PeerCodec, m: Msg, remote_hold: u16, remote_id: u32) -> BytesMut {
     let msg = match m {
         Msg::Open => bgp::Message::Open(bgp::Open {
             as_number: REMOTE_AS,
             holdtime: HoldTime::new(remote_hold).unwrap(),
-            router_id: u32::from(Ipv4Addr::new(10, 0, 0, 2)),
+            router_id: remote_id,
             capability: vec![
                 bgp::Capability::MultiProtocol(Family::IPV4),
                 bgp::Capability::FourOctetAsNumber(REMOTE_AS),
@@ -535,6 +539,267 @@ async fn session(plan: Plan, late_quick: bool, daemon: tokio::runtime::Handle) -
     let _ = tokio::time::timeout(Duration::from_secs(2), task).await;
     drop(client);
     out
+}
+
+// ------------------------------------------------------------------ collision pairs
+
+/// One remote end of a two-connection session.
+struct RemoteEnd {
+    client: TcpStream,
+    codec: bgp::PeerCodec,
+    rx: BytesMut,
+    writes: Vec<(Instant, Msg, bool)>,
+    reads: Vec<(Instant, Seen)>,
+    ended: bool,
+}
+
+impl RemoteEnd {
+    fn new(client: TcpStream) -> RemoteEnd {
+        RemoteEnd {
+            client,
+            codec: bgp::PeerCodec::new(),
+            rx: BytesMut::with_capacity(4096),
+            writes: Vec::new(),
+            reads: Vec::new(),
+            ended: false,
+        }
+    }
+    async fn send(&mut self, m: Msg, hold: u16, id: u32) {
+        let buf = encode_id(&mut self.codec, m, hold, id);
+        let before = Instant::now();
+        let ok = self.client.write_all(&buf).await.is_ok();
+        self.writes.push((before, m, ok));
+    }
+    fn absorb(&mut self, r: std::io::Result<usize>) {
+        let t = Instant::now();
+        let end = match r {
+            Ok(0) => Some(Seen::Eof),
+            Ok(_) => None,
+            Err(_) => Some(Seen::Reset),
+        };
+        loop {
+            match self.codec.try_parse(&mut self.rx) {
+                Ok(Some(m)) => {
+                    let s = match m {
+                        bgp::ParsedMessage::Open(o) => Seen::Open(o.holdtime.seconds()),
+                        bgp::ParsedMessage::Keepalive => Seen::Keepalive,
+                        bgp::ParsedMessage::Update(_) => Seen::Update,
+                        bgp::ParsedMessage::Notification(n) => {
+                            self.ended = true;
+                            Seen::Notification(n.notification_code(), n.notification_subcode())
+                        }
+                        _ => continue,
+                    };
+                    self.reads.push((t, s));
+                }
+                Ok(None) => break,
+                Err(_) => {
+                    self.rx.clear();
+                    break;
+                }
+            }
+        }
+        if let Some(e) = end {
+            self.ended = true;
+            self.reads.push((t, e));
+        }
+    }
+    fn saw(&self, f: impl Fn(&Seen) -> bool) -> bool {
+        self.reads.iter().any(|r| f(&r.1))
+    }
+}
+
+/// wait (at most `wait`) for bytes on either connection
+async fn poll_both(a: &mut RemoteEnd, b: &mut RemoteEnd, wait: Duration) {
+    tokio::select! {
+        r = a.client.read_buf(&mut a.rx), if !a.ended => a.absorb(r),
+        r = b.client.read_buf(&mut b.rx), if !b.ended => b.absorb(r),
+        _ = tokio::time::sleep(wait) => {}
+    }
+}
+
+#[derive(Clone, Debug)]
+struct CollPlan {
+    id: u64,
+    local: u16,
+    remote: u16,
+    first_role: Role,
+    remote_id: u32,
+    /// after the collision the survivor's remote end sends one KEEPALIVE (then silence) or nothing
+    keepalive_after: bool,
+    start_ms: u64,
+}
+
+fn make_coll_plan(rng: &mut Rng, id: u64) -> CollPlan {
+    CollPlan {
+        id,
+        local: *rng.pick(&[3u16, 4, 6, 9]),
+        remote: *rng.pick(&[3u16, 5]),
+        first_role: if rng.bool() { Role::Active } else { Role::Passive },
+        // local identifier is 10.0.0.1
+        remote_id: if rng.bool() { u32::from(Ipv4Addr::new(10, 0, 0, 2)) } else { u32::from(Ipv4Addr::new(9, 0, 0, 9)) },
+        keepalive_after: rng.chance(1, 3),
+        start_ms: rng.range(0, 2500),
+    }
+}
+
+fn spawn_daemon_side(
+    daemon: &tokio::runtime::Handle,
+    global: GlobalHandle,
+    tables: TableHandle,
+    server: std::net::TcpStream,
+    role: Role,
+) -> tokio::task::JoinHandle<()> {
+    daemon.spawn(async move {
+        let Ok(server) = TcpStream::from_std(server) else { return };
+        if let Some(sess) = accept_connection(&global, &tables, server, role).await {
+            let (active_tx, _active_rx) = mpsc::unbounded_channel::<TcpStream>();
+            sess.run(Arc::clone(&global), active_tx).await;
+        }
+    })
+}
+
+/// Two connections of one neighbour collide; the survivor's timers are then watched.
+/// Returns the survivor's history in the shape `judge` understands, and counters.
+async fn collision_session(plan: CollPlan, late_quick: bool, daemon: tokio::runtime::Handle) -> (Outcome, Vec<&'static str>) {
+    let t_start = Instant::now();
+    let mut counts: Vec<&'static str> = Vec::new();
+    let as_plan = |role: Role, class: &'static str| Plan {
+        id: plan.id,
+        local: plan.local,
+        remote: plan.remote,
+        role,
+        class,
+        blind: false,
+        start_ms: plan.start_ms,
+        sends: Vec::new(),
+        observe_ms: 0,
+    };
+    let mut out = Outcome {
+        plan: as_plan(plan.first_role, "collision"),
+        aborted: None,
+        accepted: false,
+        t_start,
+        writes: Vec::new(),
+        reads: Vec::new(),
+        t_end: t_start,
+        waited_until: None,
+    };
+    tokio::time::sleep(Duration::from_millis(plan.start_ms)).await;
+    let global = match new_global(plan.local) {
+        Ok(g) => g,
+        Err(e) => {
+            out.aborted = Some(e);
+            return (out, counts);
+        }
+    };
+    let tables: TableHandle = Arc::new(TableManager::new(1));
+    let second_role = if plan.first_role == Role::Active { Role::Passive } else { Role::Active };
+    let mut ends: Vec<RemoteEnd> = Vec::new();
+    let mut tasks = Vec::new();
+    let mut servers = Vec::new();
+    for role in [plan.first_role, second_role] {
+        match make_pair(role).await {
+            Ok((c, s)) => match s.into_std() {
+                Ok(s) => {
+                    ends.push(RemoteEnd::new(c));
+                    servers.push((s, role));
+                }
+                Err(e) => {
+                    out.aborted = Some(format!("into_std: {}", e));
+                    return (out, counts);
+                }
+            },
+            Err(e) => {
+                out.aborted = Some(e);
+                return (out, counts);
+            }
+        }
+    }
+    let mut second = ends.pop().unwrap();
+    let mut first = ends.pop().unwrap();
+    let (s2, _) = servers.pop().unwrap();
+    let (s1, _) = servers.pop().unwrap();
+    let setup = Instant::now() + Duration::from_secs(40);
+    macro_rules! wait_for {
+        ($cond:expr, $what:expr) => {
+            loop {
+                if $cond {
+                    break true;
+                }
+                if Instant::now() > setup {
+                    out.aborted = Some(format!("collision set-up: {} did not happen within 40 s", $what));
+                    break false;
+                }
+                poll_both(&mut first, &mut second, Duration::from_millis(200)).await;
+            }
+        };
+    }
+    // first connection up to OpenConfirm (the remote end has read the KEEPALIVE that answers its OPEN)
+    tasks.push(spawn_daemon_side(&daemon, Arc::clone(&global), Arc::clone(&tables), s1, plan.first_role));
+    let mut ok = wait_for!(first.saw(|s| matches!(s, Seen::Open(_))) || first.ended, "the daemon's OPEN on the first connection");
+    if ok {
+        first.send(Msg::Open, plan.remote, plan.remote_id).await;
+        ok = wait_for!(first.saw(|s| *s == Seen::Keepalive) || first.ended, "OpenConfirm of the first connection");
+    }
+    // second connection: its OPEN makes the collision
+    if ok {
+        tasks.push(spawn_daemon_side(&daemon, Arc::clone(&global), Arc::clone(&tables), s2, second_role));
+        ok = wait_for!(second.saw(|s| matches!(s, Seen::Open(_))) || second.ended, "the daemon's OPEN on the second connection");
+    }
+    if ok {
+        second.send(Msg::Open, plan.remote, plan.remote_id).await;
+        ok = wait_for!(first.ended || second.ended, "the collision to be resolved (one side closed)");
+    }
+    if ok && first.ended && second.ended {
+        // give the other end a moment: both gone is not what this scenario is about (C07's business)
+        out.aborted = Some("both connections ended".into());
+        ok = false;
+    }
+    if ok {
+        let second_won = first.ended;
+        counts.push(if second_won { "real:collision:second-to-open-confirm-won" } else { "real:collision:second-to-open-confirm-lost" });
+        let (surv, loser, srole) = if second_won { (&mut second, &first, second_role) } else { (&mut first, &second, plan.first_role) };
+        if loser.saw(|s| *s == Seen::Notification(6, 7)) {
+            counts.push("real:collision:loser-read-cease");
+        }
+        out.plan = as_plan(srole, if plan.keepalive_after { "collision-survivor-keepalive" } else { "collision-survivor-silent" });
+        out.accepted = true;
+        if plan.keepalive_after {
+            surv.send(Msg::Keepalive, plan.remote, plan.remote_id).await;
+        }
+        // silence: watch the daemon's KEEPALIVEs and wait for Hold Timer Expired
+        let h = negotiated(plan.local, plan.remote) as u64;
+        let last = surv.writes.last().map(|w| w.0).unwrap_or_else(Instant::now);
+        let bound = if late_quick { 2 * h + 8 } else { 3 * h + 20 };
+        let until = last + Duration::from_secs(bound);
+        while !surv.ended {
+            let now = Instant::now();
+            if now >= until {
+                out.waited_until = Some(now);
+                break;
+            }
+            let wait = until.saturating_duration_since(now).min(Duration::from_millis(500));
+            match tokio::time::timeout(wait, surv.client.read_buf(&mut surv.rx)).await {
+                Ok(r) => surv.absorb(r),
+                Err(_) => {}
+            }
+        }
+        out.writes = std::mem::take(&mut surv.writes);
+        out.reads = std::mem::take(&mut surv.reads);
+    }
+    out.t_end = Instant::now();
+    for t in &tasks {
+        if !t.is_finished() {
+            t.abort();
+        }
+    }
+    for t in tasks {
+        let _ = tokio::time::timeout(Duration::from_secs(2), t).await;
+    }
+    drop(first);
+    drop(second);
+    (out, counts)
 }
 
 // ------------------------------------------------------------------ judging one session
@@ -819,12 +1084,30 @@ fn run() {
         hb_daemon: Heartbeat::start(daemon_rt.handle(), workers * 2),
         hb_harness: Heartbeat::start(harness_rt.handle(), 4),
     });
-    let outcomes = harness_rt.block_on(async {
+    let n_coll = params.get_u64("collisions", if thorough { 150 } else { 60 });
+    let coll_plans: Vec<CollPlan> = (0..n_coll).map(|i| make_coll_plan(&mut rng, 1_000_000 + i)).collect();
+    let n = n + n_coll;
+    let (outcomes, coll_counts) = harness_rt.block_on(async {
         let mut handles = Vec::new();
         for p in plans {
             handles.push(tokio::spawn(session(p, !thorough, ctx.daemon.clone())));
         }
+        let mut coll_handles = Vec::new();
+        for p in coll_plans {
+            coll_handles.push(tokio::spawn(collision_session(p, !thorough, ctx.daemon.clone())));
+        }
         let mut outs = Vec::new();
+        let mut coll_counts: Vec<&'static str> = Vec::new();
+        for h in coll_handles {
+            match tokio::time::timeout(Duration::from_secs(600), h).await {
+                Ok(Ok((o, c))) => {
+                    outs.push(o);
+                    coll_counts.extend(c);
+                }
+                Ok(Err(e)) => eprintln!("[C08b] collision script failed: {}", e),
+                Err(_) => eprintln!("[C08b] collision script did not finish"),
+            }
+        }
         for h in handles {
             match tokio::time::timeout(Duration::from_secs(600), h).await {
                 Ok(Ok(o)) => outs.push(o),
@@ -834,8 +1117,11 @@ fn run() {
         }
         // one more beat after the last session, so that its whole life is covered
         tokio::time::sleep(Duration::from_millis(150)).await;
-        outs
+        (outs, coll_counts)
     });
+    for c in coll_counts {
+        rep.count(c);
+    }
     let t_finish = Instant::now();
     ctx.hb_daemon.stop.store(true, Ordering::Relaxed);
     ctx.hb_harness.stop.store(true, Ordering::Relaxed);
@@ -886,11 +1172,20 @@ fn run() {
         let mut findings = Vec::new();
         judge(o, &ctx, &mut rep, &mut findings);
         if o.aborted.is_none() {
-            let key = format!("{:?}", (o.plan.local, o.plan.remote, o.plan.role, o.plan.blind, &o.plan.sends));
+            let key = format!(
+                "{:?}",
+                (o.plan.local, o.plan.remote, o.plan.role, o.plan.blind, &o.plan.sends, o.plan.class, if o.plan.sends.is_empty() { o.plan.id } else { 0 })
+            );
             rep.nontrivial(fnv64(key.as_bytes()));
         }
         for f in findings {
-            rep.violation(&f.sig, &f.what, witness(o, &ctx));
+            // the survivor of a collision is a situation of its own
+            let sig = if o.plan.class.starts_with("collision") {
+                f.sig.replacen("C08/real/", "C08/real/collision/", 1)
+            } else {
+                f.sig
+            };
+            rep.violation(&sig, &f.what, witness(o, &ctx));
         }
         if rep.want_sample() && o.aborted.is_none() && o.plan.class == "kept-alive" {
             rep.sample(witness(o, &ctx));
